@@ -212,6 +212,10 @@ class Aff:
             raise TypeError("complex")
         return v.real
 
+    def __abs__(self):
+        # |.| of a data-dependent quantity is not affine (value() raises NonAffine); constants are numbers
+        return abs(self.value())
+
     # -- functions (numpy ufuncs on object arrays call these methods)
     def sqrt(self):
         return Aff.const(cmath.sqrt(self.value()), self.sp, self.p)
